@@ -368,6 +368,8 @@ contract(SOL + "capillary_rise.py", "capillary_rise",
              ("C03.capillary_rise_upper", "forall(j, 0, n, Out.th[j] <= prof.th_s[j])"),
              ("C19.capillary_rise_not_above_fcadj", "forall(j, 0, n, Out.th[j] <= max(%s, NewCond.th_fc_Adj[j]))" % _TH0),
              ("C19.capillary_rise_zero_without_table", "implies(water_table_presence == 0, CrTot == 0 and forall(j, 0, n, Out.th[j] == %s))" % _TH0),
+             # "a water table far below the profile gives the same results as none": 4 m or more below the centre of the bottom compartment nothing rises
+             ("C19.capillary_rise_zero_for_far_table", "implies(water_table_presence == 1 and NewCond.z_gw - prof.zMid[n-1] >= 4, CrTot == 0 and forall(j, 0, n, Out.th[j] == %s))" % _TH0),
          ],
          loops={
              "L3": dict(invariant=[
@@ -378,6 +380,7 @@ contract(SOL + "capillary_rise.py", "capillary_rise",
                  ("monotone", "forall(j, 0, n, NewCond.th[j] >= %s)" % _TH0),
                  ("upper", "forall(j, 0, n, NewCond.th[j] <= max(%s, NewCond.th_fc_Adj[j]))" % _TH0),
                  ("frame", "forall(j, 0, compi + 1, NewCond.th[j] == %s)" % _TH0),
+                 ("far", "implies(NewCond.z_gw - prof.zMid[n-1] >= 4, MaxCR == 0 and WCr == 0 and forall(j, 0, n, NewCond.th[j] == %s))" % _TH0),
              ], decreases="compi + 1"),
          },
          assigns=["NewCond.th[*]"],
